@@ -34,12 +34,15 @@ Proof.
 Qed.
 
 (* --- non-negative, defined, and with positive pow bases ---------------------- *)
+Lemma sq_sum_nonneg : forall a b, 0 <= a * a + b * b.
+Proof. intros; nra. Qed.
+
 Lemma fit_A_nonneg : forall r e, dnonneg (ra_s0 r) = true -> 0 <= fit_A Rops (prep_A Rops r) e.
 Proof.
   intros r e H. apply dnonneg_sound in H. unfR. dec_norm.
   set (y := e * _). set (yw := dec2R (ra_yw r)).
   apply Rmult_le_pos; [nra|].
-  apply Rmult_le_pos; [apply Rmult_le_pos|]; try (left; apply Rpower_pos). nra.
+  apply Rmult_le_pos; [apply Rmult_le_pos|]; try (left; apply Rpower_pos). apply sq_sum_nonneg.
 Qed.
 
 Lemma fit_B_nonneg : forall r e, dnonneg (rb_s0 r) = true -> 0 <= fit_B Rops (prep_B Rops r) e.
@@ -47,7 +50,7 @@ Proof.
   intros r e H. apply dnonneg_sound in H. unfR. dec_norm.
   set (x := e * _ - _). set (yw := dec2R (rb_yw r)).
   apply Rmult_le_pos; [nra|].
-  apply Rmult_le_pos; [apply Rmult_le_pos|]; try (left; apply Rpower_pos). nra.
+  apply Rmult_le_pos; [apply Rmult_le_pos|]; try (left; apply Rpower_pos). apply sq_sum_nonneg.
 Qed.
 
 Lemma xsec_sel_nonneg : forall s e, sel_ok s = true -> exists v, xsec_sel Rops s e = Some v /\ 0 <= v.
@@ -89,12 +92,15 @@ Proof.
   assert (Hy' : 0 < fitB_y Rops (prep_B Rops b) e).
   { unfold fitB_y, fitB_x, prep_B; cbn [pb_E0inv pb_y0 pb_y12 o_mul o_div o_sub o_add o_sqrt Rops].
     rewrite one_R. unfold cd; cbn [o_dec Rops]. apply sqrt_lt_R0.
+    match goal with |- 0 < ?x * ?x + ?y * ?y => set (xx := x); set (yy := y) end.
     apply orb_prop in Hy as [Hy | Hy].
-    - apply dpos_sound in Hy. nra.
+    - apply dpos_sound in Hy. fold yy in Hy.
+      assert (0 < yy * yy) by nra. assert (0 <= xx * xx) by nra. lra.
     - apply dnonpos_sound in Hy.
       assert (0 < e * (1 / (dec2R (rb_E0 b) * eV_to_Hz Rops))).
       { apply Rmult_lt_0_compat; [assumption|]. apply Rdiv_lt_0_compat; [lra | nra]. }
-      nra. }
+      assert (0 < xx) by (unfold xx; lra).
+      assert (0 < xx * xx) by nra. assert (0 <= yy * yy) by nra. lra. }
   split; [assumption|].
   unfold fitB_b2. cbn [o_add o_sqrt o_mul Rops]. rewrite one_R.
   pose proof (sqrt_pos (fitB_y Rops (prep_B Rops b) e * pb_yainv (prep_B Rops b))). lra.
@@ -105,7 +111,7 @@ Lemma sum_opt_nonneg : forall l, Forall (fun x => exists v, x = Some v /\ 0 <= v
   exists v, sum_opt Rops l = Some v /\ 0 <= v.
 Proof.
   induction l as [|x r IH]; intros H.
-  - exists 0. cbn. rewrite zero_R. split; [reflexivity | lra].
+  - exists 0. cbn [sum_opt]. rewrite zero_R. split; [reflexivity | lra].
   - inversion H as [|? ? [v [-> Hv]] Hr]; subst.
     destruct r as [|y r'].
     + exists v. split; [reflexivity | assumption].
@@ -118,7 +124,7 @@ Qed.
 Lemma sum_opt_zero : forall l, Forall (fun x => x = Some 0) l -> sum_opt Rops l = Some 0.
 Proof.
   induction l as [|x r IH]; intros H.
-  - cbn. rewrite zero_R. reflexivity.
+  - cbn [sum_opt]. rewrite zero_R. reflexivity.
   - inversion H as [|? ? -> Hr]; subst.
     destruct r as [|y r'].
     + reflexivity.
@@ -202,7 +208,7 @@ Proof.
   replace (E * ev * (1 / (dec2R (ra_E0 r) * ev))) with (E / dec2R (ra_E0 r)) by (field; lra).
   replace (E / dec2R (ra_E0 r) * (1 / dec2R (ra_ya r))) with (E / dec2R (ra_E0 r) / dec2R (ra_ya r)) by (field; lra).
   replace (5 / 10 * dec2R (ra_P r) - 55 / 10 - INR (ra_l r)) with (- (55 / 10 + INR (ra_l r) - 5 / 10 * dec2R (ra_P r))) by lra.
-  field.
+  field; lra.
 Qed.
 
 Lemma fit_B_is_published : forall b E, dpos (rb_E0 b) = true -> dpos (rb_ya b) = true ->
@@ -218,7 +224,7 @@ Proof.
   replace (x * x + dec2R (rb_y1 b) * dec2R (rb_y1 b)) with (x ^ 2 + dec2R (rb_y1 b) ^ 2) by ring.
   set (y := sqrt _).
   replace (y * (1 / dec2R (rb_ya b))) with (y / dec2R (rb_ya b)) by (field; lra).
-  field.
+  field; lra.
 Qed.
 
 (* which expression each tracked shell evaluates: one of 0, pub95 on its verner_A row, pub96 on its verner_B row *)
